@@ -104,9 +104,23 @@ impl<'a, T, L: MutLayout + Send + Sync> IntoParallelIterator for InnerIterMut<'a
 
 impl<'a, T, L: MutLayout + RemoveDim> SplitIterator for AxisIter<'a, T, L> {
     fn split_at(self, index: usize) -> (Self, Self) {
-        let (left_view, right_view) = self.view.split_at(self.axis, index);
-        let left = AxisIter::new(&left_view, self.axis);
-        let right = AxisIter::new(&right_view, self.axis);
+        assert!(index <= self.len());
+
+        // Split relative to the current position, so that slices which have
+        // already been yielded from the front or back are not visited again.
+        let mid = self.index + index;
+        let left = AxisIter {
+            view: self.view.clone(),
+            axis: self.axis,
+            index: self.index,
+            end: mid,
+        };
+        let right = AxisIter {
+            view: self.view,
+            axis: self.axis,
+            index: mid,
+            end: self.end,
+        };
         (left, right)
     }
 }
@@ -120,9 +134,24 @@ where
 
 impl<'a, T, L: MutLayout + RemoveDim> SplitIterator for AxisIterMut<'a, T, L> {
     fn split_at(self, index: usize) -> (Self, Self) {
-        let (left_view, right_view) = self.view.split_at_mut(self.axis, index);
-        let left = AxisIterMut::new(left_view, self.axis);
-        let right = AxisIterMut::new(right_view, self.axis);
+        assert!(index <= self.len());
+
+        // Split relative to the current position, so that slices which have
+        // already been yielded from the front or back are not visited again.
+        let mid = self.index + index;
+        let (left_view, right_view) = self.view.split_at_mut(self.axis, mid);
+        let left = AxisIterMut {
+            view: left_view,
+            axis: self.axis,
+            index: self.index,
+            end: mid,
+        };
+        let right = AxisIterMut {
+            view: right_view,
+            axis: self.axis,
+            index: 0,
+            end: self.end - mid,
+        };
         (left, right)
     }
 }
